@@ -5,6 +5,7 @@ import Driver.UpstreamCmds
 import Driver.ResolveCmds
 import Driver.ServerCmds
 import Driver.HostsCmds
+import Driver.ConfigCmds
 import Resolved.Spec.RefDecode
 
 namespace Resolved.Driver
@@ -154,6 +155,7 @@ def dispatch (fields : List String) : Result :=
   | ["hosts.lossy", z, impl] => cmdHostsLossy z impl
   | ["ip.parse", hex, impl] => cmdIpParse hex impl
   | ["ip.show", v, impl] => cmdIpShow v impl
+  | ["config.load", es, orders, qs, impl] => cmdConfigLoad es orders qs impl
   | cmd :: _ => bad ("unknown " ++ cmd)
   | [] => bad "empty"
 
